@@ -24,7 +24,9 @@ type ctx struct {
 	typeIDs map[string]int
 	assumptionsUsed map[string]bool
 	defNames map[string]bool
+	defAsserts map[*T]string
 	usesIx bool
+	usesBits bool
 	facts []symFact // facts about heap symbols (value ranges), rendered when the symbol is used
 }
 
@@ -42,7 +44,7 @@ type structInfo struct {
 func newCtx(bv bool) *ctx {
 	c := &ctx{bv: bv, d: newDecls(), sorts: map[string]string{}, structs: map[string]*structInfo{},
 		ifaceCtors: map[string]*dtCtor{}, ifaceTypes: map[string]types.Type{}, strLits: map[string]*T{}, typeIDs: map[string]int{},
-		assumptionsUsed: map[string]bool{}, defNames: map[string]bool{}}
+		assumptionsUsed: map[string]bool{}, defNames: map[string]bool{}, defAsserts: map[*T]string{}}
 	// slice datatype
 	is := c.intSort()
 	c.slice = &datatype{name: "Slice"}
@@ -566,12 +568,25 @@ func (c *ctx) arith(op token.Token, x, y *T, t types.Type, ovf *[]overflowCheck)
 		if op == token.AND_NOT {
 			return c.arith(token.AND, x, c.bitnot(y, t), t, ovf)
 		}
-		if x.bit != nil && y.bit == nil {
+		if x.bit != nil && x.bit.shr == nil && y.bit == nil {
 			x, y = y, x
+		}
+		if y.bit != nil && y.bit.shr != nil && (x.bit == nil || x.bit.shr == nil) {
+			if _, isNum := numeralValue(x); isNum {
+				x, y = y, x
+			}
 		}
 		if _, ok := numeralValue(x); ok && y.bit == nil {
 			if _, ok2 := numeralValue(y); !ok2 {
 				x, y = y, x
+			}
+		}
+		if op == token.AND && !signed && x.bit != nil && x.bit.shr != nil {
+			if v, ok := numeralValue(y); ok && v.Cmp(big.NewInt(1)) == 0 {
+				// (v >> n) & 1
+				c.usesBits = true
+				inW := app("<", "Bool", x.bit.n, atom(fmt.Sprint(x.bit.w), "Int"))
+				return mkIte(mkAnd(inW, app("bitof", "Bool", x.bit.shr, x.bit.n)), atom("1", "Int"), atom("0", "Int"))
 			}
 		}
 		if op == token.AND && !signed {
@@ -587,37 +602,20 @@ func (c *ctx) arith(op token.Token, x, y *T, t types.Type, ovf *[]overflowCheck)
 				}
 			}
 		}
-		if y.bit != nil && !signed && y.bit.w == w {
-			// y is 1<<n or ^(1<<n) with symbolic n: case split over the bit index
+		if y.bit != nil && y.bit.shr == nil && !signed && y.bit.w == w {
+			// y is 1<<n or ^(1<<n) with symbolic n: abstract bit functions (axiomatised, see smt.go)
+			c.usesBits = true
 			n := y.bit.n
-			bitSet := func(i int) *T {
-				return mkEq(app("mod", "Int", app("div", "Int", x, atom(pow2(i).String(), "Int")), atom("2", "Int")), atom("1", "Int"))
-			}
-			p := func(i int) *T { return atom(pow2(i).String(), "Int") }
-			var branch func(i int) *T
+			inW := app("<", "Bool", n, atom(fmt.Sprint(w), "Int"))
 			switch {
 			case op == token.AND && !y.bit.neg: // test bit
-				branch = func(i int) *T { return mkIte(bitSet(i), p(i), atom("0", "Int")) }
+				return mkIte(mkAnd(inW, app("bitof", "Bool", x, n)), y, atom("0", "Int"))
 			case op == token.AND && y.bit.neg: // clear bit
-				branch = func(i int) *T { return mkIte(bitSet(i), app("-", "Int", x, p(i)), x) }
+				return mkIte(inW, app("setbit", "Int", x, n, tFalse), x)
 			case op == token.OR && !y.bit.neg: // set bit
-				branch = func(i int) *T { return mkIte(bitSet(i), x, app("+", "Int", x, p(i))) }
+				return mkIte(inW, app("setbit", "Int", x, n, tTrue), x)
 			case op == token.XOR && !y.bit.neg: // toggle
-				branch = func(i int) *T { return mkIte(bitSet(i), app("-", "Int", x, p(i)), app("+", "Int", x, p(i))) }
-			}
-			if branch != nil {
-				// n >= w: 1<<n is 0 (and its complement all ones)
-				var r *T
-				switch {
-				case op == token.AND && !y.bit.neg:
-					r = atom("0", "Int")
-				default:
-					r = x
-				}
-				for i := w - 1; i >= 0; i-- {
-					r = mkIte(mkEq(n, atom(fmt.Sprint(i), "Int")), branch(i), r)
-				}
-				return r
+				return mkIte(inW, app("setbit", "Int", x, n, mkNot(app("bitof", "Bool", x, n))), x)
 			}
 		}
 		if w <= 16 && !signed {
@@ -713,7 +711,11 @@ func (c *ctx) shift(op token.Token, x, y *T, tx, ty types.Type) *T {
 		p := atom(pow2(i).String(), "Int")
 		var b *T
 		if op == token.SHL {
-			b = c.wrap(app("*", "Int", x, p), w, signed)
+			if xv, ok := numeralValue(x); ok {
+				b = c.wrap(atom(new(big.Int).Mul(xv, pow2(i)).String(), "Int"), w, signed)
+			} else {
+				b = c.wrap(app("*", "Int", x, p), w, signed)
+			}
 		} else {
 			b = app("div", "Int", x, p)
 		}
@@ -726,6 +728,8 @@ func (c *ctx) shift(op token.Token, x, y *T, tx, ty types.Type) *T {
 		if v, ok := numeralValue(x); ok && v.Cmp(big.NewInt(1)) == 0 && !signed {
 			r = &T{op: r.op, args: r.args, sort: r.sort, bit: &bitMeta{n: y, w: w}}
 		}
+	} else if !signed {
+		r = &T{op: r.op, args: r.args, sort: r.sort, bit: &bitMeta{n: y, w: w, shr: x}}
 	}
 	return r
 }
